@@ -141,6 +141,12 @@ def h_write_input(ctx, program="gaussian", natom=2, tname="default", chg="set", 
             occ = ctx.real_array("occ", (2,), lo=0, hi=2)
             mo = O.MolecularOrbitals("restricted", 2, 2, occ)
             kw["mo"] = mo
+        if chg == "ecp":
+            # effective core charges differ from the atomic numbers (pseudo-potential / ghost centre)
+            core_q = np.array([float(z) for z in atnums], dtype=object if ctx.mode == "sym" else float)
+            core_q[probes[0]] = ctx.real("qcore", lo=0, hi=30, default=7.0)
+            kw["atcorenums"] = core_q
+            kw["nelec"] = ctx.real("nelec", lo=0, hi=60, default=8.0)
         run_type = ctx.choice([None, "energy", "energy_force", "opt", "scan", "freq", "OPT", "Freq"], label="run_type")
         lot, title = ctx.choice([(None, None), ("B3LYP", "my title here")], label="lot,title")
         kw["run_type"] = run_type
@@ -241,7 +247,7 @@ def jobs(tier):
     big = 200 if tier == "thorough" else 40
     for program in ("gaussian", "orca"):
         for tname in ("default", "t1", "t2", "t3", "bad"):
-            for chg, spin in (("set", "set"), ("none", "none"), ("mo", "mo")):
+            for chg, spin in (("set", "set"), ("none", "none"), ("mo", "mo"), ("ecp", "set")):
                 if tname in ("t2", "t3", "bad") and chg != "set":
                     continue
                 for natom in (1, 2):
